@@ -24,7 +24,7 @@ SCRIPTS = [
      "moves": ["e2e4", "a7a6", "e4e5", "d7d5", "e5d6", "c7d6", "g1f3", "b8c6", "b1c3", "c6e5", "c3e4", "g8f6", "e4g5", "f6g4", "f3e5", "g4e5"]},
 ]
 # lines that can never name a legal move (so the scripted game stays on its line)
-JUNK = ["a1a1", "O-O-O-O", "e9", "Ke4x", "i4", "h8h8", "Nxz9", "0-0"]
+JUNK = ["a1a1", "O-O-O-O", "e9", "Ke4x", "i4", "h8h8", "Nxz9", "0-0", "Pe4", "e4e", "=Q", "Qa1xb2", "R1a9", "xx", "O-O-O+#", "e8=K"]
 
 
 def build_binary():
@@ -91,6 +91,7 @@ def run_session(binary, inputs, timeout=20):
         raise ToolError("chess pvp did not print an initial board:\n" + buf[-500:])
     for k, line in enumerate(inputs):
         before = len(parse_boards(buf))
+        mark = len(buf)
         try:
             p.stdin.write(line + "\n")
             p.stdin.flush()
@@ -102,7 +103,9 @@ def run_session(binary, inputs, timeout=20):
             # the program ended (e.g. after mate) or hung
             results.append({"line": line, "printed": None})
             break
-        results.append({"line": line, "printed": boards[-1]})
+        chunk = buf[mark:]
+        react = "invalid" if "invalid input" in chunk else ("error" if "error:" in chunk else "accepted")
+        results.append({"line": line, "printed": boards[-1], "react": react})
     p.kill()
     p.wait()
     return parse_boards(buf)[0], results, buf
@@ -140,7 +143,7 @@ def pvp_check(ctx):
                 if r["printed"] is None:
                     break
                 line = r["line"]
-                ev = {"ev": "Cli", "s": line, "b": r["printed"][1], "turn": r["printed"][0], "obs": startobs}
+                ev = {"ev": "Cli", "s": line, "chars": list(line), "react": r["react"], "b": r["printed"][1], "turn": r["printed"][0], "obs": startobs}
                 if len(line) == 4 and line[0] in "abcdefgh" and line[1] in "12345678" and line[2] in "abcdefgh" and line[3] in "12345678":
                     ev["kind"] = "coord"
                     ev["f"] = (ord(line[0]) - 97) + (int(line[1]) - 1) * 8 + 1
